@@ -549,7 +549,7 @@ func ruleInitialWindowDelta(p *Prog, r *Out) {
 		return
 	}
 	r.fn("(*Conn).applyInitialWindow")
-	lock, unlock, deltaIdx, remIdx, applyIdx := -1, -1, -1, -1, -1
+	lock, unlock, deltaIdx, remIdx, applyIdx, guardIdx := -1, -1, -1, -1, -1, -1
 	var dl Lin
 	for i, s := range fd.Body.List {
 		switch x := s.(type) {
@@ -573,8 +573,18 @@ func ruleInitialWindowDelta(p *Prog, r *Out) {
 		case *ast.RangeStmt:
 			if p.text(x.X) == "c.pending" {
 				for _, b := range x.Body.List {
-					if as, ok := b.(*ast.AssignStmt); ok && as.Tok == token.ADD_ASSIGN && p.isFieldSel(as.Lhs[0], "pendingBody", "window") && p.text(as.Rhs[0]) == "delta" {
+					if as, ok := b.(*ast.AssignStmt); ok && as.Tok == token.ADD_ASSIGN && p.isFieldSel(as.Lhs[0], "pendingBody", "window") && (p.text(as.Rhs[0]) == "delta" || squash(p.text(as.Rhs[0])) == "int32(delta)") {
 						applyIdx = i
+					}
+					// the refusal: a window that would pass 2^31-1, found before anything is changed
+					if ifs, ok := b.(*ast.IfStmt); ok {
+						if c, okc := p.canonCmp(ifs.Cond, nil); okc && c.Op == "le" && c.L.C == 1<<31 && len(c.L.T) == 2 && c.L.T["delta"] == -1 {
+							if res := firstReturn(ifs.Body); len(res) == 1 {
+								if cl, code, okE := p.errorCall(res[0]); okE && cl == "GoAway" && code == 3 {
+									guardIdx = i
+								}
+							}
+						}
 					}
 				}
 			}
@@ -583,6 +593,7 @@ func ruleInitialWindowDelta(p *Prog, r *Out) {
 	r.check(deltaIdx >= 0 && dl.eq(Lin{T: map[string]int64{"size": 1, "c.streamWindow": -1}}), "client delta = new - remembered", p.pos(fd.Pos()), dl.String(), fmt.Sprintf("the client computes the window delta as %s; RFC 7540 s6.9.2 requires new - old", dl))
 	r.check(remIdx > deltaIdx && deltaIdx >= 0, "client remembers new value", p.pos(fd.Pos()), "streamWindow = size after delta", "c.streamWindow is not set to the new size after the delta is computed")
 	r.check(applyIdx > deltaIdx && deltaIdx >= 0, "client applies delta to every pending body", p.pos(fd.Pos()), "pb.window += delta", "the delta is not added to every stream still sending")
+	r.check(guardIdx > deltaIdx && guardIdx < remIdx && guardIdx < applyIdx, "client refuses a change that takes a stream window past 2^31-1, before it changes anything", p.pos(fd.Pos()), "for every pending body: window + delta > 2^31-1 -> FLOW_CONTROL_ERROR connection error, ahead of the stores", "applyInitialWindow no longer refuses, before anything is stored, a SETTINGS_INITIAL_WINDOW_SIZE that takes the send window of an open stream past 2^31-1 (RFC 7540 s6.9.2): the window wraps to a negative value, the frame is acknowledged, and the body on that stream waits for ever")
 	r.check(lock >= 0 && lock < deltaIdx && unlock > applyIdx && unlock > remIdx, "client delta under sendLck", p.pos(fd.Pos()), "Lock < delta, store, apply < Unlock", "the delta computation and its application are not all under c.sendLck")
 	// called only under the presence marker
 	for _, f := range p.Files {
